@@ -10,6 +10,7 @@
 //!   pd  <hex>                                PlutusData::from_bytes -> to_bytes, hash_plutus_data
 //!   pdl <hex>                                PlutusList::from_bytes -> to_bytes
 //!   fb  <hex>                                FixedTransactionBody::from_bytes -> original_bytes, tx_hash
+//!   fws <hex> <av|ab op>*                    FixedTxWitnessesSet::from_bytes, add_*_witness, to_bytes, tx_witnesses_set
 //!   fbs <hex>                                FixedTransactionBodies::from_bytes -> every original_bytes / tx_hash
 //!   blk <hex> <claimed header bytes>         FixedBlock::from_bytes -> bodies as above, block_hash
 //!   vblk <hex> <claimed header bytes>        FixedVersionedBlock::from_bytes -> era code + the same
@@ -25,7 +26,9 @@
 //! Observation
 //!   ok b=<raw_body> a=<raw_auxiliary_data|~> w=<raw_witness_set> t=<to_bytes> hp=<bytes whose Blake2b-256
 //!   (computed by the implementation below, not by the library) equals transaction_hash, or ?<hash>>
-//!   e=<one digit per operation: 1 = it returned an error>     |  err  |  panic
+//!   e=<one digit per operation: 1 = it returned an error> v=<is_valid()> bb=<body().to_bytes()>
+//!   sc=<- or the accessors that disagree with the raw ones: to_hex, body(), witness_set(), auxiliary_data(),
+//!   reloading to_bytes() through from_bytes / from_hex>                                   |  err  |  panic
 use cardano_serialization_lib::*;
 use csl_verif_harness::util::*;
 
@@ -190,9 +193,37 @@ fn observe(mut tx: FixedTransaction, ops: &[String]) -> String {
     let mut cands: Vec<&Vec<u8>> = vec![&body];
     for b in bodies.iter().rev() { cands.push(b); }
     for c in cands { if blake2b256(c).to_vec() == hash { hp = hx(c); break; } }
-    format!("ok b={} a={} w={} t={} hp={} e={}", hx(&body),
-            match tx.raw_auxiliary_data() { Some(a) => hx(&a), None => "~".into() },
-            hx(&tx.raw_witness_set()), hx(&tx.to_bytes()), hp, if e.is_empty() { "-".into() } else { e })
+    // every other public accessor must tell the same story as the raw accessors
+    let mut sc: Vec<&str> = vec![];
+    let tb = tx.to_bytes();
+    let rw = tx.raw_witness_set();
+    let ra = tx.raw_auxiliary_data();
+    if tx.to_hex() != hex::encode(&tb) { sc.push("tohex"); }
+    match TransactionBody::from_bytes(body.clone()) { Ok(b) => if b != tx.body() { sc.push("body"); }, Err(_) => sc.push("body-reparse") }
+    match FixedTxWitnessesSet::from_bytes(rw.clone()) {
+        Ok(w) => { if w.tx_witnesses_set() != tx.witness_set() { sc.push("witset"); } if w.to_bytes() != rw { sc.push("witset-bytes"); } }
+        Err(_) => sc.push("witset-reparse"),
+    }
+    match TransactionWitnessSet::from_bytes(rw.clone()) { Ok(w) => if w != tx.witness_set() { sc.push("witset-plain"); }, Err(_) => sc.push("witset-plain-reparse") }
+    match (&ra, tx.auxiliary_data()) {
+        (Some(a), Some(x)) => match AuxiliaryData::from_bytes(a.clone()) { Ok(y) => if y != x { sc.push("aux"); }, Err(_) => sc.push("aux-reparse") },
+        (None, None) => {}
+        _ => sc.push("aux-presence"),
+    }
+    // the serialized transaction loads again to the same raw parts (also through the hex entry point)
+    match (FixedTransaction::from_bytes(tb.clone()), FixedTransaction::from_hex(&hex::encode(&tb))) {
+        (Ok(t2), Ok(t3)) => {
+            if t2.raw_body() != body || t2.raw_witness_set() != rw || t2.raw_auxiliary_data() != ra || t2.is_valid() != tx.is_valid()
+               || t2.to_bytes() != tb || t2.transaction_hash() != tx.transaction_hash() { sc.push("reload"); }
+            if t3.to_bytes() != tb { sc.push("fromhex"); }
+        }
+        _ => sc.push("reload-err"),
+    }
+    format!("ok b={} a={} w={} t={} hp={} e={} v={} bb={} sc={}", hx(&body),
+            match &ra { Some(a) => hx(a), None => "~".into() },
+            hx(&rw), hx(&tb), hp, if e.is_empty() { "-".into() } else { e },
+            if tx.is_valid() { 1 } else { 0 }, hx(&tx.body().to_bytes()),
+            if sc.is_empty() { "-".to_string() } else { sc.join(",") })
 }
 
 fn exec(toks: &[String]) -> String {
@@ -234,7 +265,31 @@ fn exec(toks: &[String]) -> String {
                 let o = b.original_bytes();
                 let h = b.tx_hash().to_bytes();
                 let hp = if blake2b256(&o).to_vec() == h { hx(&o) } else { format!("?{}", hex::encode(&h)) };
-                format!("ok o={} hp={}", hx(&o), hp)
+                let mut sc: Vec<&str> = vec![];
+                match TransactionBody::from_bytes(o.clone()) { Ok(x) => if x != b.transaction_body() { sc.push("body"); }, Err(_) => sc.push("body-reparse") }
+                match FixedTransactionBody::from_hex(&toks[1].replace("-", "")) {
+                    Ok(c) => if c.original_bytes() != o || c.tx_hash() != b.tx_hash() { sc.push("fromhex"); },
+                    Err(_) => sc.push("fromhex-err"),
+                }
+                format!("ok o={} hp={} bb={} sc={}", hx(&o), hp, hx(&b.transaction_body().to_bytes()), if sc.is_empty() { "-".to_string() } else { sc.join(",") })
+            }
+        },
+        "fws" if toks.len() >= 2 => match FixedTxWitnessesSet::from_bytes(uh(&toks[1])) {
+            Err(_) => "err".into(),
+            Ok(mut w) => {
+                for op in &toks[2..] {
+                    let f: Vec<&str> = op.split(':').collect();
+                    match f[0] {
+                        "av" => match vkw_of(&uh(f[1]), &uh(f[2])) { Some(x) => w.add_vkey_witness(&x), None => return "harness-badop".into() },
+                        "ab" => match bw_of(&uh(f[1]), &uh(f[2]), &uh(f[3]), &uh(f[4])) { Some(x) => w.add_bootstrap_witness(&x), None => return "harness-badop".into() },
+                        _ => return "harness-badop".into(),
+                    }
+                }
+                let b = w.to_bytes();
+                let mut sc: Vec<&str> = vec![];
+                match TransactionWitnessSet::from_bytes(b.clone()) { Ok(p) => if p != w.tx_witnesses_set() { sc.push("witset-plain"); }, Err(_) => sc.push("reparse") }
+                match FixedTxWitnessesSet::from_bytes(b.clone()) { Ok(p) => if p.to_bytes() != b || p.tx_witnesses_set() != w.tx_witnesses_set() { sc.push("reload"); }, Err(_) => sc.push("reload-err") }
+                format!("ok w={} sc={}", hx(&b), if sc.is_empty() { "-".to_string() } else { sc.join(",") })
             }
         },
         "fbs" if toks.len() == 2 => match FixedTransactionBodies::from_bytes(uh(&toks[1])) {
@@ -243,15 +298,29 @@ fn exec(toks: &[String]) -> String {
         },
         "blk" if toks.len() == 3 => match FixedBlock::from_bytes(uh(&toks[1])) {
             Err(_) => "err".into(),
-            Ok(b) => format!("ok {} bh={}", bodies_obs(&b.transaction_bodies()), block_hash_pre(&b, &uh(&toks[1]), &uh(&toks[2]))),
+            Ok(b) => format!("ok {} bh={} {}", bodies_obs(&b.transaction_bodies()), block_hash_pre(&b, &uh(&toks[1]), &uh(&toks[2])), block_rest(&b, &uh(&toks[2]))),
         },
         "vblk" if toks.len() == 3 => match FixedVersionedBlock::from_bytes(uh(&toks[1])) {
             Err(_) => "err".into(),
             Ok(v) => { let b = v.block();
-                format!("ok era={} {} bh={}", v.era() as u32, bodies_obs(&b.transaction_bodies()), block_hash_pre(&b, &uh(&toks[1]), &uh(&toks[2]))) }
+                format!("ok era={} {} bh={} {}", v.era() as u32, bodies_obs(&b.transaction_bodies()), block_hash_pre(&b, &uh(&toks[1]), &uh(&toks[2])), block_rest(&b, &uh(&toks[2]))) }
         },
         _ => "harness-badcase".into(),
     }
+}
+
+/// the remaining accessors of a block: counts, and the header view against the header bytes
+fn block_rest(b: &FixedBlock, claimed_header: &[u8]) -> String {
+    let mut sc: Vec<&str> = vec![];
+    if blake2b256(claimed_header).to_vec() == b.block_hash().to_bytes() {
+        match Header::from_bytes(claimed_header.to_vec()) { Ok(h) => if h != b.header() { sc.push("header"); }, Err(_) => sc.push("header-reparse") }
+    }
+    let bs = b.transaction_bodies();
+    for i in 0..bs.len() {
+        let x = bs.get(i);
+        match TransactionBody::from_bytes(x.original_bytes()) { Ok(t) => if t != x.transaction_body() { sc.push("body"); break; }, Err(_) => { sc.push("body-reparse"); break; } }
+    }
+    format!("nw={} ni={} sc={}", b.transaction_witness_sets().len(), b.invalid_transactions().len(), if sc.is_empty() { "-".to_string() } else { sc.join(",") })
 }
 
 fn bodies_obs(bs: &FixedTransactionBodies) -> String {
